@@ -616,6 +616,18 @@ func c15HTTPTable(c *kit.Ctx, k *keyer, s *c15Slots) {
 	evString := c.FuncObj("internal/tracker", "Event.String")
 	hexEnc := c.FuncObj("encoding/hex", "EncodeToString")
 
+	// the query may be built by Announce itself or by same-package helpers that
+	// receive Announce's request value (announceURL(req), ...): every builder
+	// is scanned with its own request parameter index.
+	builders := c15QueryBuilders(c, ann, ri)
+	reqIdx := func(fn *ssa.Function) int {
+		for _, b := range builders {
+			if b.fn == fn {
+				return b.ri
+			}
+		}
+		return -1
+	}
 	// WriteString calls per block, in order
 	type ws struct {
 		ins ssa.Instruction
@@ -623,13 +635,15 @@ func c15HTTPTable(c *kit.Ctx, k *keyer, s *c15Slots) {
 	}
 	perBlock := map[*ssa.BasicBlock][]ws{}
 	var all []ws
-	kit.Instrs(ann, func(ins ssa.Instruction) {
-		if kit.IsCall(ins, writeString) {
-			w := ws{ins, argOf(kit.CallOf(ins), 1)}
-			perBlock[ins.Block()] = append(perBlock[ins.Block()], w)
-			all = append(all, w)
-		}
-	})
+	for _, b := range builders {
+		kit.Instrs(b.fn, func(ins ssa.Instruction) {
+			if kit.IsCall(ins, writeString) {
+				w := ws{ins, argOf(kit.CallOf(ins), 1)}
+				perBlock[ins.Block()] = append(perBlock[ins.Block()], w)
+				all = append(all, w)
+			}
+		})
+	}
 	next := func(w ws) *ws {
 		l := perBlock[w.ins.Block()]
 		for i := range l {
@@ -662,7 +676,9 @@ func c15HTTPTable(c *kit.Ctx, k *keyer, s *c15Slots) {
 		}
 		table[m[1]] = append(table[m[1]], pair{w, next(w)})
 	}
-	field := func(e *kit.Expr, f *types.Var) bool { return c15ReqField(e.Strip(), s, f, ann, ri) }
+	// the builder in which the values of the current pair are evaluated
+	cur := ann
+	field := func(e *kit.Expr, f *types.Var) bool { return c15ReqField(e.Strip(), s, f, cur, reqIdx(cur)) }
 	hash := func(f *types.Var) func(*kit.Expr) bool {
 		return func(e *kit.Expr) bool { return e.IsCallTo(percentEscape) && len(e.Args) == 1 && field(e.Args[0], f) }
 	}
@@ -712,6 +728,7 @@ func c15HTTPTable(c *kit.Ctx, k *keyer, s *c15Slots) {
 				continue
 			}
 			v := kit.Canon(p.val.arg)
+			cur = p.val.ins.Parent()
 			c.Check(r.ok(v), "R15.3", key, posOf(p.val.ins), r.key+"="+v.String(),
 				"HTTP query parameter "+r.key+" is written from "+v.String()+", reference (BEP 3) is "+r.want)
 		}
@@ -719,18 +736,116 @@ func c15HTTPTable(c *kit.Ctx, k *keyer, s *c15Slots) {
 	c.Floor("R15.3", "HTTP query (key,value) pairs extracted", n, 10)
 	// event is written only for a non-empty event
 	evNone := c.Const("internal/tracker", "EventNone")
-	guard := c.AtomFlow(ann, func(a kit.Atom) bool {
-		if a.Op != token.NEQ || !c15ReqField(a.L.Strip(), s, s.fReqEvent, ann, ri) {
+	evW, _ := constant.Int64Val(evNone.Val())
+	guards := map[*ssa.Function]*kit.Flow{}
+	guardIn := func(fn *ssa.Function) *kit.Flow {
+		if g, ok := guards[fn]; ok {
+			return g
+		}
+		idx := reqIdx(fn)
+		g := c.AtomFlow(fn, func(a kit.Atom) bool {
+			if a.Op != token.NEQ || idx < 0 || !c15ReqField(a.L.Strip(), s, s.fReqEvent, fn, idx) {
+				return false
+			}
+			v, ok := a.R.Strip().IntConst()
+			return ok && v == evW
+		}, nil)
+		guards[fn] = g
+		return g
+	}
+	// the guard holds at the write, or (the request being an unmodified
+	// by-value parameter of every builder) at every call site of the builder
+	var guarded func(ins ssa.Instruction, up int) bool
+	guarded = func(ins ssa.Instruction, up int) bool {
+		fn := ins.Parent()
+		if guardIn(fn).Before(ins) {
+			return true
+		}
+		if fn == ann || up <= 0 {
 			return false
 		}
-		v, ok := a.R.Strip().IntConst()
-		w, _ := constant.Int64Val(evNone.Val())
-		return ok && v == w
-	}, nil)
+		sites := c.StaticCallSites(fn)
+		if len(sites) == 0 {
+			return false
+		}
+		for _, site := range sites {
+			if site == nil || !guarded(site, up-1) {
+				return false
+			}
+		}
+		return true
+	}
 	for _, p := range table["event"] {
-		c.Check(guard.Before(p.key.ins), "R15.3", k.key(ann, "event guard"), posOf(p.key.ins),
+		c.Check(guarded(p.key.ins, 2), "R15.3", k.key(ann, "event guard"), posOf(p.key.ins),
 			"event parameter written only under req.Event != EventNone", "event parameter is written also for EventNone (regular announces must carry no event)")
 	}
+}
+
+// c15QB is a function that takes part in building the HTTP announce query
+// together with the index of the parameter that holds Announce's request.
+type c15QB struct {
+	fn *ssa.Function
+	ri int
+}
+
+// c15QueryBuilders returns Announce and the same-package functions (two call
+// levels) that are only called statically from builders with the builder's
+// own request value as an argument.
+func c15QueryBuilders(c *kit.Ctx, ann *ssa.Function, ri int) []c15QB {
+	out := []c15QB{{ann, ri}}
+	idxOf := func(fn *ssa.Function) int {
+		for _, b := range out {
+			if b.fn == fn {
+				return b.ri
+			}
+		}
+		return -1
+	}
+	for level := 0; level < 2; level++ {
+		var add []c15QB
+		for _, b := range out {
+			kit.Instrs(b.fn, func(ins ssa.Instruction) {
+				call, ok := ins.(*ssa.Call)
+				if !ok {
+					return
+				}
+				g := call.Call.StaticCallee()
+				if g == nil || g.Blocks == nil || g == ann || idxOf(g) >= 0 || pkgOf(g) != pkgOf(ann) {
+					return
+				}
+				for j, a := range call.Call.Args {
+					if j >= len(g.Params) || !c15IsParam(a, b.fn, b.ri) {
+						continue
+					}
+					// every call site hands over the request of a builder
+					okAll := true
+					for _, site := range c.StaticCallSites(g) {
+						if site == nil {
+							okAll = false
+							break
+						}
+						pi := idxOf(site.Parent())
+						sc := site.(*ssa.Call)
+						if pi < 0 || j >= len(sc.Call.Args) || !c15IsParam(sc.Call.Args[j], site.Parent(), pi) {
+							okAll = false
+						}
+					}
+					dup := false
+					for _, x := range add {
+						if x.fn == g {
+							dup = true
+						}
+					}
+					if okAll && !dup {
+						add = append(add, c15QB{g, j})
+					}
+					return
+				}
+			})
+		}
+		out = append(out, add...)
+	}
+	return out
 }
 
 // ---- R15.3 request tables: UDP ---------------------------------------------
